@@ -99,6 +99,16 @@ CLAIMED["C04"] = dict(
          "degeneracies (labelled bounded). Periodicity of the phases is the integer-shift law of the phase algebra used in C02/C33.",
     note=TB + "; scipy.stats.unitary_group.rvs returns a unitary matrix (external); gauge covariance of the trace formulas is NOT proved")
 
+CLAIMED["C23"] = dict(
+    text="get_mp_grid and grid_from_kpoints (real text) executed exhaustively over the finite domain the property quantifies over: every "
+         "mesh size N = 1..100 per direction (the supported denominator; directions are independent: the per-direction loop reads only its "
+         "own column, checked on the text), ascending/descending/shuffled listings, coordinates shifted by lattice vectors; and for point "
+         "selection every mesh up to 3x3x3 (plus 4x1x2, 5x2x1) with every single missing point, every single duplicated point, every "
+         "(missing, duplicated) pair and interleaved off-grid points: each mesh point is returned exactly once, incomplete meshes raise "
+         "ValueError. Complete for mesh sizes (finite domain); listing orders are sampled (3 per mesh), which is the bounded part.",
+    note=TB + "; Fraction.limit_denominator and np.lcm.reduce are external (exercised by the enumeration itself, since the real functions run)",
+    category="proof")
+
 NOT_APPLICABLE = {
     "C20": "real-space symmetrisation is a data-dependent floating-point orbit search over irrep objects; its postcondition is only statable through an eigen-solver, no discrete/algebraic kernel is left once externals are abstracted (DESIGN section 7)",
     "C21": "rotation matrices are produced inside sympy (polynomial expansion + evalf); orthogonality/composition live in that CAS computation, outside any contract this engine can generate VCs for (DESIGN section 7)",
